@@ -490,7 +490,8 @@ func (gen *generator) irUseListOrder(old *ast.UseListOrder) (*ir.UseListOrder, e
 	}
 	oldConst, ok := oldVal.Val().(ast.Constant)
 	if !ok {
-		panic(fmt.Errorf("support for use-list order value %T not yet implemented", oldVal.Val()))
+		// e.g. a local identifier: no function scope exists at module level.
+		return nil, errors.Errorf("invalid use-list order value %T at module level; expected constant", oldVal.Val())
 	}
 	c, err := gen.irConstant(typ, oldConst)
 	if err != nil {
